@@ -130,3 +130,24 @@ void h_fini(void)
 	VASSERT(free_list.count == 0 && at_gvt_list.count == 0, "C11.fini both pools are emptied");
 	VCANARY("h_fini reachable");
 }
+
+/* msg_allocator_pack (inline, msg_allocator.h): fields and payload bytes copied exactly, inside the buffer */
+void h_pack(void)
+{
+	POOLS_SETUP();
+	VIN(lp_id_t, receiver);
+	VIN(simtime_t, t);
+	VIN(unsigned, type);
+	VIN(unsigned, pls);
+	VIN_ARR(unsigned char, payload, 48);
+	VIN(unsigned, g);
+	VASSUME(pls <= 48 && g < 48);
+	struct lp_msg *m = msg_allocator_pack(receiver, t, type, payload, pls);
+	VASSERT(m->dest == receiver && m->m_type == type && m->pl_size == pls && (m->dest_t == t || t != t), "C10.pack the event carries receiver, time, type and size");
+	VASSERT(g >= pls || m->pl[g] == payload[g], "C10.pack the payload bytes are copied exactly (also beyond the 32 inline bytes)");
+#ifndef VERIF_NATIVE
+	VASSERT(__CPROVER_rw_ok(m, offsetof(struct lp_msg, pl) + (pls > MSG_PAYLOAD_BASE_SIZE ? pls : MSG_PAYLOAD_BASE_SIZE)), "C11.pack the buffer holds header and payload");
+#endif
+	VCANARY("h_pack reachable");
+	VCOVER(pls > MSG_PAYLOAD_BASE_SIZE && g >= MSG_PAYLOAD_BASE_SIZE && g < pls, "h_pack covers a payload byte beyond the inline part");
+}
